@@ -4,7 +4,7 @@ from __future__ import annotations
 import ast
 from typing import Dict, List, Optional
 
-from ..astutil import Inliner, attr_chain, call_name, match, returns_of, set_parents, stmts_of
+from ..astutil import Inliner, attr_chain, call_name, match, returns_of, set_parents, stmts_of, statement_texts
 from ..closedform import classify
 from ..core import OK, UNDECIDED, VIOLATION, AnalysisError, ClassInfo, FuncInfo, Repo, Report, unparse
 from ..fecrules import ENC
@@ -131,7 +131,7 @@ def rule_syndrome_table(repo: Repo, rep: Report) -> int:
             rep.violation("COSET-LEADER", gp, f"positions: for pos in {it2}", "the recursion bound must be n - ones_left + 1: another bound drops supports that end at the last positions (or generates short patterns)", node=fl[0])
         else:
             rep.undecided("COSET-LEADER", gp, f"positions: {it2}", "shape not recognised")
-        body = [unparse(s) for s in stmts_of(rec.body)]
+        body = statement_texts(rec)
         ok = "current[pos] = 1" in body and "generate_recursive(current, ones_left - 1, pos + 1)" in body and "current[pos] = 0" in body and "patterns.append(current.clone())" in body
         rep.expect(ok, "COSET-LEADER", gp, "set bit, recurse with (ones_left - 1, pos + 1), clear bit; a clone is stored at ones_left == 0", "backtracking enumeration of all supports", "pattern enumeration changed")
         n += 2
@@ -175,7 +175,7 @@ def rule_ml(repo: Repo, rep: Report) -> int:
     ci = repo.cls(ML, "BruteForceMLDecoder")
     n = 0
     gc = repo.method(ci, "_generate_codebook")
-    body = [unparse(s) for s in stmts_of(gc.body)]
+    body = statement_texts(gc)
     ok = "num_messages = 2 ** k" in body and "k = self.code_dimension" in body and any(b == "codewords[i] = self.encoder(messages[i].unsqueeze(0)).squeeze(0)" for b in body) and "messages[i, k - j - 1] = float(i >> j & 1)" in body
     loops = [unparse(s.iter) for s in stmts_of(gc.body) if isinstance(s, ast.For)]
     ok = ok and loops.count("range(num_messages)") == 2
@@ -227,7 +227,7 @@ def rule_bm(repo: Repo, rep: Report) -> int:
         rep.violation("BM", sp, f"syndromes S_i for i in {it}", "the 2t syndromes must be evaluated at alpha^1 .. alpha^(2t)", node=loops[0])
     else:
         rep.undecided("BM", sp, f"syndrome loop {it}", "not recognised")
-    body = [unparse(s) for s in stmts_of(sp.body)]
+    body = statement_texts(sp)
     rep.expect("alpha_i = self._alpha ** i" in body and "eval_result = eval_result + alpha_i ** j" in body and any(b.startswith("for (j, bit) in enumerate(received)") or b.startswith("for j, bit in enumerate(received)") for b in [unparse(s).split(":")[0] for s in stmts_of(sp.body) if isinstance(s, ast.For)]), "BM", sp, "S_i = sum over set positions j of (alpha^i)^j", "evaluation of the received polynomial at alpha^i (position j = degree j)", "syndrome evaluation changed")
     n += 3
     fe = repo.method(ci, "_find_error_locations")
@@ -239,7 +239,7 @@ def rule_bm(repo: Repo, rep: Report) -> int:
         rep.violation("BM", fe, f"Chien search: for j in {it}", "the root search must cover all n positions", node=loops[0])
     else:
         rep.undecided("BM", fe, f"Chien loop {it}", "not recognised")
-    body = [unparse(s) for s in stmts_of(fe.body)]
+    body = statement_texts(fe)
     rep.expect("x = alpha ** (n - j) if j > 0 else self.field.one" in body and "result = result + coef * x ** i" in body and "error_positions.append(j)" in body and any(unparse(s.test) == "result == self.field.zero" for s in stmts_of(fe.body) if isinstance(s, ast.If)), "BM", fe, "position j is in error iff sigma(alpha^-j) = 0", "roots of the error locator are the inverse locators", "root test changed")
     n += 2
     fwd = repo.method(ci, "forward")
@@ -247,13 +247,13 @@ def rule_bm(repo: Repo, rep: Report) -> int:
     if cl is None:
         rep.undecided("BM", fwd, "decode_block", "closure not found")
         return n + 1
-    body = [unparse(s) for s in stmts_of(cl.body)]
+    body = statement_texts(cl)
     rep.expect("corrected[pos] = 1.0 - corrected[pos]" in body and "error_positions = self._find_error_locations(error_locator)" in body and "error_locator = self.berlekamp_massey_algorithm(syndrome)" in body and "syndrome = self.encoder.calculate_syndrome_polynomial(r_field)" in body and "decoded[i] = self.encoder.extract_message(corrected)" in body, "BM", cl, "syndrome -> locator -> Chien positions -> flip exactly those bits -> encoder.extract_message", "the decoding chain", "decoding chain changed")
     zero = [s for s in stmts_of(cl.body) if isinstance(s, ast.If) and unparse(s.test) == "all((s == self.field.zero for s in syndrome))"]
     rep.expect(len(zero) == 1, "BM", cl, "zero syndrome: the word is returned uncorrected", "codewords are not modified", "zero-syndrome shortcut changed")
     n += 2
     alg = repo.method(ci, "berlekamp_massey_algorithm")
-    body = [unparse(s) for s in stmts_of(alg.body)]
+    body = statement_texts(alg)
     need = ["coefficient = discrepancy[j] * inv_discrepancy_k", "sigma[j + 1] = [fst[i] + snd[i] * coefficient for i in range(degree[j + 1] + 1)]", "degree[j + 1] = max(degree[j], degree[k] + j - k)", "discrepancy[j + 1] += sigma[j + 1][i + 1] * syndrome[j - i]", "inv_discrepancy_k = discrepancy[k].inverse()"]
     for t in need:
         rep.expect(t in body, "BM", alg, f"LFSR synthesis step `{t}`", "Berlekamp-Massey update", "a step of the LFSR synthesis changed")
@@ -286,12 +286,12 @@ def rule_bm(repo: Repo, rep: Report) -> int:
 def rule_hamming(repo: Repo, rep: Report) -> int:
     ci = repo.cls(HAM, "HammingCodeEncoder")
     sp = repo.method(ci, "_syndrome_to_error_position")
-    body = [unparse(s) for s in stmts_of(sp.body)]
+    body = statement_texts(sp)
     loops = [s for s in sp.body if isinstance(s, ast.For)]
     ok = "H = self.check_matrix" in body and bool(loops) and unparse(loops[0].iter) == "range(self.code_length)" and "col = H[:, j].float()" in body and any(isinstance(s, ast.If) and unparse(s.test) == "torch.equal(col, syn)" for s in stmts_of(sp.body)) and any(unparse(r.value) == "j" for r in returns_of(sp.node)) and any(unparse(r.value) == "self.code_length" for r in returns_of(sp.node))
     rep.expect(ok, "HAMMING", sp, "error position = index j of the check-matrix column equal to the syndrome (n if none)", "a single error at position j has syndrome H[:, j]: the published H decides", "syndrome -> position map changed")
     inv = repo.method(ci, "inverse_encode")
-    body = [unparse(s) for s in stmts_of(inv.body)]
+    body = statement_texts(inv)
     ok = "y_reshaped[i, p] = 1 - y_reshaped[i, p]" in body and "valid_errors = error_positions < self.code_length" in body and any(b.startswith("error_positions = torch.tensor([self._syndrome_to_error_position(s) for s in syndrome_reshaped]") for b in body) and "syndrome = self.calculate_syndrome(y)" in body
     rep.expect(ok, "HAMMING", inv, "flip exactly the located bit of each row with a matching column; syndrome from the encoder's calculate_syndrome", "single-error correction by the published H", "Hamming correction changed")
     # every row whose syndrome equals a column of H is corrected: the mask of corrected rows is never narrowed
